@@ -161,6 +161,8 @@ pub struct DiskShared {
     pub hard_fired: u64,
     pub benign_fired: u64,
     pub calls: u64,
+    /// byte position of the device object that acted last (after the call)
+    pub cursor: u64,
 }
 
 #[derive(Debug)]
@@ -240,6 +242,7 @@ impl SimDisk {
 
     fn record(&mut self, op: DiskOp, req: usize, res: Result<usize, ErrorKind>, fault: Option<Fault>, fired: bool) {
         let mut sh = self.shared.borrow_mut();
+        sh.cursor = self.pos;
         let fname = if fired { fault.map(|f| f.name()) } else { None };
         if let (true, Some(f)) = (fired, fault) {
             *sh.fired.entry((f.name(), opname(op))).or_insert(0) += 1;
